@@ -127,10 +127,25 @@ func followPresent(c *run.Ctx) {
 		}
 		done := make(chan error, 1)
 		go func() { done <- cmd.Wait() }()
+		// wait until the follower holds the file open (its /proc fd table names the path): removing the file before
+		// that would be the follow-missing case, not this one
+		opened := false
+		for k := 0; k < 1200 && !opened; k++ {
+			if ents, err := os.ReadDir(fmt.Sprintf("/proc/%d/fd", cmd.Process.Pid)); err == nil {
+				for _, e := range ents {
+					if l, err := os.Readlink(fmt.Sprintf("/proc/%d/fd/%s", cmd.Process.Pid, e.Name())); err == nil && l == path {
+						opened = true
+					}
+				}
+			}
+			if !opened {
+				time.Sleep(50 * time.Millisecond)
+			}
+		}
 		// append until the follower shows a line appended after its start (or, when nothing can match, for a fixed number of appends)
 		f, _ := os.OpenFile(path, os.O_APPEND|os.O_WRONLY, 0o644)
 		seen := false
-		for k := 0; k < 200 && !seen; k++ {
+		for k := 0; opened && k < 1200 && !seen; k++ {
 			fmt.Fprintf(f, "line appended %d\n", k)
 			time.Sleep(50 * time.Millisecond)
 			if sh.wantOut {
@@ -154,11 +169,15 @@ func followPresent(c *run.Ctx) {
 		c.Count("follow_present_runs", 1)
 		what := "rare " + strings.Join(args[:len(args)-1], " ") + " FILE"
 		if timedOut {
-			c.Inconclusive(what + " did not end within 180 s after the file was removed (C15 owns that clause; not judged here)")
+			c.Note(what + " did not end within 180 s after the file was removed (C15 owns that clause; not judged here)")
+			continue
+		}
+		if !opened {
+			c.Note(what + ": the follower did not open the file within 60 s (load); not judged")
 			continue
 		}
 		if sh.wantOut && !seen {
-			c.Inconclusive(what + ": no appended line came out within 10 s of appends (C15 owns delivery; the exit status is not judged)")
+			c.Note(what + ": no appended line came out within 60 s of appends (C15 owns delivery; the exit status is not judged)")
 			continue
 		}
 		code := 0
